@@ -530,6 +530,7 @@ def check(ctx: Ctx):
 
     support.check_field_types(ctx)
     support.check_setter_total(ctx, "droplets.droplets.SphericalDroplet.volume@setter", "radius")
+    support.check_nd_factory_decorators(ctx)
     ctx.expect("LAYOUT", 3)
     ctx.expect("FORMULA", 24)
     ctx.expect("ZERO", 8)
